@@ -25,6 +25,9 @@ type c15Rec struct {
 func (r *c15Rec) WriteDirect(b []byte, remainCap int) error {
 	r.bufs = append(r.bufs, b)
 	r.rcs = append(r.rcs, remainCap)
+	if r.inner == nil {
+		return nil
+	}
 	return r.inner.WriteDirect(b, remainCap)
 }
 
@@ -330,6 +333,28 @@ func c15Run(in V) V {
 			w = rec
 		}
 		n := write(data, w, false)
+		if hw && (!isStruct || len(kvs) <= 1) { // (with >= 2 map entries Go's map order differs between two runs)
+			// the same write into a buffer that has SPARE CAPACITY behind its length (as a pooled or
+			// block-allocating writer hands out): the positions the library indicates are relative to
+			// the buffer's length, so they must be the same; if they are not, this run is reported
+			func() {
+				defer func() { recover() }()
+				backing := make([]byte, size+37)
+				d2 := backing[:size]
+				for i := range d2 {
+					d2[i] = fill
+				}
+				rec2 := &c15Rec{}
+				n2 := write(d2, rec2, false)
+				same := n2 == n && len(rec2.rcs) == len(rec.rcs)
+				for i := 0; same && i < len(rec.rcs); i++ {
+					same = rec2.rcs[i] == rec.rcs[i]
+				}
+				if !same {
+					rec.rcs = append(rec2.rcs, make([]int, max(0, len(rec.bufs)-len(rec2.rcs)))...)[:len(rec.bufs)]
+				}
+			}()
+		}
 		var pairs []V
 		for i, b := range rec.bufs {
 			// the slice handed over must be the value itself (content is what is compared)
